@@ -34,7 +34,8 @@ int __QS_SB_VERB;	/* verbosity threshold (defined in except.c, not linked here):
 void mpq_EGlpNumSet(mpq_t v, const double d) { v->_mp_num._mp_size = nondet_int(); v->_mp_den._mp_size = 1; }
 static dbl_QSdata *mk_dbl(void) { dbl_QSdata *p = qsv_alloc(sizeof *p); p->qslp = qsv_alloc(sizeof *p->qslp); p->lp = qsv_alloc(sizeof *p->lp); p->qslp->ncols = NS; p->qslp->nrows = NS; p->lp->final_phase = nondet_int(); p->simplex_display = 0; return p; }
 static mpf_QSdata *mk_mpf(void) { mpf_QSdata *p = qsv_alloc(sizeof *p); p->qslp = qsv_alloc(sizeof *p->qslp); p->lp = qsv_alloc(sizeof *p->lp); p->qslp->ncols = NS; p->qslp->nrows = NS; p->lp->final_phase = nondet_int(); p->basis = 0; p->simplex_display = 0; return p; }
-static QSbasis *mk_basis(void) { QSbasis *b = qsv_alloc(sizeof *b); b->nstruct = NS; b->nrows = NS; b->cstat = malloc(NS); b->rstat = malloc(NS); return b; }
+int g_basis_live;	/* ghost: QSbasis objects handed out by the stubs and not yet freed */
+static QSbasis *mk_basis(void) { QSbasis *b = qsv_alloc(sizeof *b); g_basis_live++; b->nstruct = NS; b->nrows = NS; b->cstat = malloc(NS); b->rstat = malloc(NS); return b; }
 int dbl_QSload_basis(dbl_QSdata *p, QSbasis *B) { return nondet_int(); }
 int dbl_ILLeditor_solve(dbl_QSdata *p, int a) { return nondet_int(); }
 int dbl_QSget_status(dbl_QSdata *p, int *s) { *s = nondet_int(); return nondet_int(); }
@@ -55,8 +56,8 @@ int mpf_QSget_pi_array(mpf_QSdata *p, mpf_t *x) { return nondet_int(); }
 int mpf_QSget_infeas_array(mpf_QSdata *p, mpf_t *x) { return nondet_int(); }
 QSbasis *mpf_QSget_basis(mpf_QSdata *p) { return nondet_bool() ? mk_basis() : 0; }
 void mpf_QSfree_prob(mpf_QSdata *p) { if (p) { free(p->qslp); free(p->lp); free(p); } }
-void mpf_QSfree_basis(QSbasis *b) { if (b) { free(b->cstat); free(b->rstat); free(b); } }
-void mpq_QSfree_basis(QSbasis *b) { if (b) { free(b->cstat); free(b->rstat); free(b); } }
+void mpf_QSfree_basis(QSbasis *b) { if (b) { g_basis_live--; free(b->cstat); free(b->rstat); free(b); } }
+void mpq_QSfree_basis(QSbasis *b) { if (b) { g_basis_live--; free(b->cstat); free(b->rstat); free(b); } }
 void mpf_ILLlp_basis_free(mpf_ILLlp_basis *B) { }
 void mpf_QSset_precision(const unsigned prec) { }
 int mpq_QSwrite_prob(mpq_QSdata *p, const char *a, const char *b) { return nondet_int(); }
@@ -162,6 +163,7 @@ void harness(void)
 		"C01 gating: OPTIMAL with rval 0 only after a passed exact optimal test on the vectors handed out");
 	ASSERT(!(rv == 0 && status == QS_LP_INFEASIBLE) || (g_inf_cert == 1 && g_out_inf == 1 && g_out_y_from == g_cert_y),
 		"C02 gating: INFEASIBLE with rval 0 only after a passed exact infeasible test on the multipliers handed out");
+	ASSERT(g_basis_live == 0, "C18: every basis object obtained from the floating-point solvers during the precision ladder is released before the exact solver returns (no caller basis was passed)");
 	COVER_MUST(rv == 0 && status == QS_LP_OPTIMAL, "optimal");
 	COVER_MUST(rv == 0 && status == QS_LP_INFEASIBLE, "infeasible");
 	REACH_END();
